@@ -12,8 +12,9 @@ from harness.common import Ctx, Inconclusive, Violation, drive, guard
 RULE = ("Hypothesis draws a calibrator configuration (line-up of 2-6 cheap samplers incl. XGBoost and best-batch, batch sizes "
         "1-5, ensemble 1-4, simulation length equal to / different from the real length, model incl. one returning 1e200-scale "
         "and infinite values, loss Minkowski p in {1,2} / MSM / user stub) and a history of 1-5 calibrate(n) calls (n 1-4); the "
-        "model, the loss and every sampler are wrapped from outside to record what they saw. Invariant after every call: the "
-        "eleven clauses of the statement. Non-trivial = >= 2 calibrate calls, ensemble >= 2, >= 2 different batch sizes.")
+        "model, the loss and every sampler are wrapped from outside to record what they saw; in a third of the multi-call "
+        "histories the line-up is replaced between calls (set_samplers). Invariant after every call: the eleven clauses of the "
+        "statement, and the id recorded for a row belongs to one sampler class only. Non-trivial = >= 2 calibrate calls, ensemble >= 2, >= 2 different batch sizes.")
 ASSUMPTIONS = ["n_jobs = 1 so model invocations are in-process and ordered", "models are pure functions of (theta, N, seed): "
                "re-running the recorded call reproduces the recorded series bit for bit",
                "an exception out of calibrate() (e.g. a third-party estimator on infinite losses) is not a C02 matter: the "
@@ -57,7 +58,15 @@ def cases(draw):
     cfg = {"space": sp, "lineup": draw(gen.lineup_spec(kinds=gen.CHEAP, max_len=6, max_bs=5)), "loss": loss, "model": model,
            "D": d_out, "N": n, "E": draw(st.sampled_from([1, 2, 2, 3, 4])), "seed": draw(st.integers(0, 2**32 - 2)),
            "sim_length": sim_length, "convergence_precision": draw(st.sampled_from([None, None, None, 0, 0, 1]))}
-    return {"cfg": cfg, "calls": draw(st.lists(st.integers(1, 4), min_size=draw(st.sampled_from([1, 2, 2, 3])), max_size=5))}
+    calls = draw(st.lists(st.integers(1, 4), min_size=draw(st.sampled_from([1, 2, 2, 3])), max_size=5))
+    # optionally the line-up is replaced between two calls (set_samplers): the labels of later rows must still identify the
+    # sampler that produced them
+    swaps = {}
+    if len(calls) >= 2 and draw(st.integers(0, 2)) == 0:
+        for ci in range(1, len(calls)):
+            if draw(st.booleans()):
+                swaps[str(ci)] = draw(gen.lineup_spec(kinds=["halton", "rseq", "uniform", "pso"], min_len=1, max_len=4, max_bs=3))
+    return {"cfg": cfg, "calls": calls, "swaps": swaps}
 
 
 def check_history(ctx: Ctx, case):
@@ -78,16 +87,20 @@ def check_history(ctx: Ctx, case):
     with guard(ctx, "C02/exception", sub, case):
         samplers = calib.make_samplers(cfg)
         cal = calib.build(cfg, model=model, loss=loss, samplers=samplers)
-    for pos, s in enumerate(samplers):
-        def wrap(s=s, pos=pos):
-            orig = s.sample
+    def wrap_all(line):
+        for pos, s in enumerate(line):
+            def wrap(s=s, pos=pos):
+                orig = s.sample
 
-            def sample(space, pts, losses):
-                out = orig(space, pts, losses)
-                log["samplers"].append((pos, type(s).__name__, np.array(out, copy=True)))
-                return out
-            s.sample = sample
-        wrap()
+                def sample(space, pts, losses):
+                    out = orig(space, pts, losses)
+                    log["samplers"].append((pos, type(s).__name__, np.array(out, copy=True)))
+                    log["lineup_len"].append(len(line))
+                    return out
+                s.sample = sample
+            wrap()
+    log["lineup_len"] = []
+    wrap_all(samplers)
     real = cal.real_data
     E, N = cfg["E"], cal.N
     prev = calib.hist_snapshot(cal)
@@ -103,6 +116,13 @@ def check_history(ctx: Ctx, case):
 
     for ci, nb in enumerate(calls):
         nb_before = len(log["samplers"])
+        if case.get("swaps", {}).get(str(ci)):
+            with guard(ctx, "C02/exception", sub, case):
+                samplers = [gen.make_sampler(x) for x in case["swaps"][str(ci)]]
+                wrap_all(samplers)
+                cal.set_samplers(samplers)
+            if "set_samplers" not in classes:
+                classes.append("set_samplers")
         try:
             with np.errstate(all="ignore"):
                 ret = cal.calibrate(nb)
@@ -170,8 +190,17 @@ def check_history(ctx: Ctx, case):
             ctx.fail("C02/method-labels", f"call {ci}: method_samp {cur['method_samp'].tolist()} != {exp_method.tolist()}", sub,
                      case)
             return
+        owners = {}
+        for name, sid in cal.samplers_id_table.items():
+            owners.setdefault(sid, []).append(name)
+        shared = {sid: names for sid, names in owners.items() if len(names) > 1}
+        if shared:
+            count(False)
+            ctx.fail("C02/label-ambiguous", f"call {ci}: the id table gives one id to several sampler classes {shared}: rows "
+                     "labelled with it no longer identify the sampler that produced them", sub, case)
+            return
         for b, (pos, _, _) in enumerate(log["samplers"]):
-            if pos != b % len(samplers):
+            if pos != b % log["lineup_len"][b]:
                 count(False)
                 ctx.fail("C02/designated-sampler", f"batch {b} ran sampler at position {pos}", sub, case)
                 return
